@@ -4,7 +4,10 @@ from fractions import Fraction as Fr
 
 import numpy as np
 
+import os
+
 from harness import common as C
+from translate import c15 as T
 
 ID = 'C15'
 PROPS_V = 'C15/Props.v'
@@ -34,6 +37,17 @@ ASSUMPTIONS = [
     'eigenspectra are float32, so the projection identity is checked at 1e-5 relative',
     'badness monotonicity in floating point is required up to 1e-9 relative slack',
 ]
+
+def translate(ctx):
+    text, info = T.generate(C.REPO)
+    path = os.path.join(C.COQ, 'Generated', 'Chi2.v')
+    if text is not None:
+        info['changed'] = C.write_if_changed(path, text)
+    else:
+        info['note'] = ('source shape not recognised; the previous Generated/Chi2.v is kept and the correspondence run '
+                        'alone ties model to code')
+    return {'Chi2': info}
+
 
 HEADER = '''From Coq Require Import QArith ZArith List. Import ListNotations.
 From PV Require Import Lib.WLS C13.LinAlg C15.Model. Open Scope Q_scope.'''
